@@ -25,6 +25,8 @@ fragment SH_ANAME   : 'A' [0-9]+ ;
 fragment SH_VERSION : [0-9]+ '.' [0-9]+ ;
 fragment SH_DEVICE  : [0-9A-Za-z._]+ ;
 fragment SH_ANYTEXT : (~[\n])* ;
+fragment SH_PARG    : '\u0001' ;
+fragment SH_KARG    : '\u0002' ;
 """
 FORMS = r"""
 fragment F_INT      : '-'? INT ;
